@@ -351,7 +351,7 @@ CANON_POST = []
 
 def pick_key(ctx, knames, i):
     fast = [n for n in knames if not n.startswith('rsa')] or knames
-    if ctx.quick and i % 12:
+    if i % 12:            # RSA private-key loading inside PGPy costs ~50 ms per signature: every 12th signer only
         return fast[i % len(fast)]
     return knames[i % len(knames)]
 
